@@ -4,7 +4,7 @@ from contracts.c_context import ENV, TEMPLATE
 
 contract(
     "liquid2.context:RenderContext.__init__",
-    props=["C10", "C09"],
+    props=["C10", "C09", "C01", "C07"],
     params={"self": Rec("RenderContext", _module="liquid2.context"), "template": TEMPLATE,
             "global_data": Rec("ReadOnlyChainMap", _module="liquid2.utils.chainmap", _maps=ConcreteList(Any_, Any_, Any_))},
     post=[
@@ -15,9 +15,8 @@ contract(
         "self.scope._maps[1] is self.globals",
         "self.scope._maps[2] is builtin",
         "self.scope._maps[3] is self.counters",
-        # (an empty globals chain is replaced by an empty dict: same lookups)
-        "implies(len(global_data) > 0, self.globals is global_data)",
-        "implies(len(global_data) == 0, len(self.globals) == 0)",
+        # the globals chain is the very object the caller passed, empty or not (the render tag fills its namespace later)
+        "self.globals is global_data",
         # per-render state starts empty
         "len(self.locals) == 0 and len(self.counters) == 0 and len(self.loops) == 0",
         "len(self.tag_namespace['cycles']) == 0 and len(self.tag_namespace['stopindex']) == 0 and len(self.tag_namespace['macros']) == 0",
